@@ -139,7 +139,7 @@ def mkColl (kind : String) (ms : List Sig) (extra : List String) : Option Coll :
   | "sbt", [] => some (.sbt ms [])
   | "sbtz", [] => some (.sbtM (own.map (fun (s, i) => mkRow s i)) (own.map (fun (s, i) => (i, [s]))) ms [])
   | "lca", [k, m, sc] => do
-    some (.lca (← nat? k) (← mol? m) (← nat? sc) ms [])
+    some (.lca (← nat? k) (← mol? m) (← nat? sc) ms [] none)
   | "sqlite", [] => some (.sqlite (own.map (fun (s, i) => (mkRow s i, s))) {})
   | _, _ => none
 
@@ -196,7 +196,8 @@ def step (st : St) (line : String) : St × String :=
     match nats? [p, c, q], coltype? ct, style? sty with
     | some [p, c, q], some ct, some ex =>
       match getColl st c, lookup q st.sigs with
-      | some (_, x), some qs =>
+      | some (o, x), some qs =>
+        let st := { st with objs := st.objs.setIfInBounds o x.touch }
         let rows : Except Err (List Sig) :=
           match ct with
           | .manifest => x.signatures
@@ -234,16 +235,16 @@ def step (st : St) (line : String) : St × String :=
   | ["sigs", c] =>
     match nat? c with
     | some c => match getColl st c with
-      | some (_, x) => match x.signatures with
-        | .ok l => (st, showSigs l)
+      | some (o, x) => match x.signatures with
+        | .ok l => ({ st with objs := st.objs.setIfInBounds o x.touch }, showSigs l)
         | .error e => (st, "err " ++ errName e)
       | none => bad
     | none => bad
   | ["search", c, q] =>
     match nats? [c, q] with
     | some [c, q] => match getColl st c, lookup q st.sigs with
-      | some (_, x), some qs => match x.find qs with
-        | .ok l => (st, showSigs l)
+      | some (o, x), some qs => match x.find qs with
+        | .ok l => ({ st with objs := st.objs.setIfInBounds o x.touch }, showSigs l)
         | .error _ => (st, "err incompatible")
       | _, _ => bad
     | _ => bad
